@@ -98,7 +98,7 @@ def run_variants(lib, ast, env, texts, kind, must, want=None):
     vs = []
     for t in texts:
         h = F.Harnessed(lib, env)
-        o = h.parse(t)
+        o = h.parse(t, again=len(t) % 3 == 2)
         o['text'] = t
         if want is not None:     # the raw result as Python prints it (for the exactness of literals)
             r = lib.Parser().parse(t)
